@@ -22,6 +22,7 @@ import (
 	"github.com/semihalev/sdns/internal/dnsutil"
 	"github.com/semihalev/sdns/internal/verif/vlib"
 	"github.com/semihalev/sdns/middleware/cache"
+	"github.com/semihalev/sdns/middleware/dns64"
 )
 
 const sec = int64(time.Second)
@@ -83,6 +84,7 @@ func facts() map[string]any {
 		"max_denial_proof_ns":   int64(cache.VerifC04MaxDenialProofTTL()),
 		"cut_max_ttl_expire600": int64(cache.VerifC04CutMaxTTL(c)),
 		"hist_cut_max_ns":       histCutMax(),
+		"dns64_no_soa_ceiling_s": int64(dns64.VerifC04NoSOACeiling()),
 		"hist_proof_max_ns":     histProofMax(),
 	}
 }
